@@ -10,7 +10,19 @@ use std::io::{BufRead, Write};
 
 fn num_text(v: f64) -> String { if v < 0.0 { format!("(0 - {})", -v) } else { format!("{}", v) } }
 
+/// `(a + b + c) / 3` is what `avg{ a, b, c }` denotes: a quotient of that shape is printed as the block (the reference keeps the tree)
+fn avg_terms(e: &Exp, allow_two: bool) -> Option<Vec<&Exp>> {
+    if let Exp::BinOp(BinOp::Div, s, d) = e {
+        if let Exp::Number(n) = &**d {
+            if *n == 3.0 { if let Exp::BinOp(BinOp::Add, ab, c) = &**s { if let Exp::BinOp(BinOp::Add, a, b2) = &**ab { return Some(vec![&**a, &**b2, &**c]); } } }
+            if *n == 2.0 && allow_two { if let Exp::BinOp(BinOp::Add, a, b2) = &**s { return Some(vec![&**a, &**b2]); } }
+        }
+    }
+    None
+}
+
 fn text(e: &Exp) -> String {
+    if let Some(ts) = avg_terms(e, false) { return format!("avg{{ {} }}", ts.iter().map(|t| text(t)).collect::<Vec<_>>().join(", ")); }
     match e {
         Exp::Number(v) => num_text(*v),
         Exp::Variable(s) => s.clone(),
@@ -34,6 +46,7 @@ fn text(e: &Exp) -> String {
 fn level(op: &BinOp) -> (u8, bool) { match op { BinOp::Implies => (1, false), BinOp::Iff => (1, true), BinOp::Or => (2, true), BinOp::Xor => (3, true), BinOp::And => (4, true), BinOp::Add | BinOp::Sub => (5, true), BinOp::Mul | BinOp::Div => (6, true) } }
 fn text_min(e: &Exp, parent: Option<(&BinOp, bool)>) -> String {
     let wrap = |s: String, need: bool| if need { format!("({})", s) } else { s };
+    if let Some(ts) = avg_terms(e, true) { return format!("avg{{ {} }}", ts.iter().map(|t| text_min(t, None)).collect::<Vec<_>>().join(", ")); }
     match e {
         Exp::BinOp(op, a, c) => {
             let (lv, left) = level(op);
@@ -72,27 +85,32 @@ impl G {
         if depth == 0 || r.chance(1, 2) { return Self::affine(r, ints); }
         match r.below(10) {
             7 => { let inner = match r.below(4) { 0 => Exp::Abs(b(Self::affine(r, ints))), 1 => Exp::Max(vec![Self::affine(r, ints), Self::affine(r, ints)]), 2 => Exp::Min(vec![Self::affine(r, ints), Self::affine(r, ints)]), _ => Self::arith(r, ints, bools, depth - 1) };
-                   bin(BinOp::Div, inner, num(*r.pick(&[2.0, -2.0, -1.0, 4.0, -4.0, -2.0]))) }
+                   bin(BinOp::Div, inner, num(*r.pick(&[2.0, -2.0, -1.0, 4.0, -4.0, -2.0, 2.0]))) }
             8 => { let k = |r: &mut Rng| num(*r.pick(&[-1.0, -3.0, -2.0, 2.0, 0.0, 1.0])); bin(BinOp::Add, Self::affine(r, ints), if r.chance(1, 2) { Exp::Max(vec![k(r), k(r)]) } else { Exp::Min(vec![k(r), k(r), k(r)]) }) }
-            9 => bin(BinOp::Sub, Self::arith(r, ints, bools, depth - 1), Self::affine(r, ints)),
+            9 => if r.chance(1, 2) { bin(BinOp::Sub, Self::arith(r, ints, bools, depth - 1), Self::affine(r, ints)) }
+                 else { bin(BinOp::Div, bin(BinOp::Add, bin(BinOp::Add, Self::affine(r, ints), Self::affine(r, ints)), Self::arith(r, ints, bools, depth - 1)), num(3.0)) },   // avg{ a, b, c }
             0 | 1 => Exp::Abs(b(Self::arith(r, ints, bools, depth - 1))),
             2 => Exp::Max(vec![Self::arith(r, ints, bools, depth - 1), Self::arith(r, ints, bools, depth - 1)]),
             3 => Exp::Min(vec![Self::arith(r, ints, bools, depth - 1), Self::arith(r, ints, bools, depth - 1)]),
             4 => bin(BinOp::Add, Self::arith(r, ints, bools, depth - 1), Self::arith(r, ints, bools, depth - 1)),
             5 => bin(BinOp::Mul, num(*r.pick(&[2.0, -1.0, 3.0])), Self::arith(r, ints, bools, depth - 1)),
-            _ => if bools.is_empty() { Self::affine(r, ints) } else { bin(BinOp::Add, Self::affine(r, ints), Self::logic(r, bools, 1)) },
+            _ => if bools.is_empty() { Self::affine(r, ints) } else { { let dl = 1 + r.below(2); let l = Self::logic(r, bools, dl); let c = *r.pick(&[1.0, 1.0, 2.0, -1.0, 3.0, -2.0]);
+                   bin(BinOp::Add, Self::affine(r, ints), if c == 1.0 { l } else { bin(BinOp::Mul, num(c), l) }) } },
         }
     }
     fn logic(r: &mut Rng, bools: &[String], depth: usize) -> Exp {
         if depth == 0 || r.chance(1, 3) { return var(&bools[r.below(bools.len())]); }
         let d = depth - 1;
         let leaf = |r: &mut Rng| { let v = var(&bools[r.below(bools.len())]); if r.chance(1, 4) { Exp::UnOp(UnOp::Not, b(v)) } else { v } };
-        match r.below(10) {
+        match r.below(12) {
+            // `a and b and c`, `a or b or c`: one n-ary node
+            10 | 11 => { let l = vec![leaf(r), Self::logic(r, bools, d), leaf(r)]; if r.chance(1, 2) { Exp::And(l) } else { Exp::Or(l) } }
             // chains whose grouping comes from associativity alone when printed without parentheses
             7 => Exp::BinOp(BinOp::Implies, b(leaf(r)), b(Exp::BinOp(BinOp::Implies, b(leaf(r)), b(leaf(r))))),
             8 => Exp::BinOp(BinOp::Iff, b(Exp::BinOp(BinOp::Iff, b(leaf(r)), b(leaf(r)))), b(leaf(r))),
             9 => Exp::BinOp(BinOp::Or, b(Exp::BinOp(BinOp::And, b(leaf(r)), b(leaf(r)))), b(Exp::BinOp(BinOp::Xor, b(leaf(r)), b(leaf(r))))),
-            0 => Exp::BinOp(BinOp::And, b(Self::logic(r, bools, d)), b(Self::logic(r, bools, d))),
+            0 => if r.chance(1, 3) { let l = vec![leaf(r), Self::logic(r, bools, d), leaf(r)]; if r.chance(1, 2) { Exp::And(l) } else { Exp::Or(l) } }   // `a and b and c`: one n-ary node
+                 else { Exp::BinOp(BinOp::And, b(Self::logic(r, bools, d)), b(Self::logic(r, bools, d))) },
             1 => Exp::BinOp(BinOp::Or, b(Self::logic(r, bools, d)), b(Self::logic(r, bools, d))),
             2 => Exp::UnOp(UnOp::Not, b(Self::logic(r, bools, d))),
             3 => Exp::BinOp(BinOp::Xor, b(Self::logic(r, bools, d)), b(Self::logic(r, bools, d))),
@@ -104,14 +122,20 @@ impl G {
 }
 
 fn gen_text(r: &mut Rng, i: usize) -> Value {
-    let ni = 1 + r.below(2); let nb = r.below(3);
+    let ni = 1 + r.below(2); let nb = r.below(4);
     let mut decls: Vec<VarDecl> = Vec::new();
-    for j in 0..ni { let lo = r.range(-2, 1) as i32; decls.push(VarDecl { name: ["x", "y"][j].to_string(), ty: VariableType::IntegerRange(lo, lo + r.range(1, 4) as i32), used: true }); }
+    for j in 0..ni {
+        // now and then a range that reaches further below zero than above it (|lower| > upper)
+        let (lo, hi) = if r.chance(1, 3) { let lo = r.range(-6, -2) as i32; (lo, lo + r.range(2, 7) as i32) } else { let lo = r.range(-2, 1) as i32; (lo, lo + r.range(1, 4) as i32) };
+        decls.push(VarDecl { name: ["x", "y"][j].to_string(), ty: VariableType::IntegerRange(lo, hi), used: true }); }
     for j in 0..nb { decls.push(VarDecl { name: ["p", "q"][j.min(1)].to_string() + if j == 2 { "2" } else { "" }, ty: VariableType::Boolean, used: true }); }
     let ints: Vec<String> = decls.iter().filter(|d| !matches!(d.ty, VariableType::Boolean)).map(|d| d.name.clone()).collect();
     let bools: Vec<String> = decls.iter().filter(|d| matches!(d.ty, VariableType::Boolean)).map(|d| d.name.clone()).collect();
     let nc = 1 + r.below(3);
     let mut cs = Vec::new();
+    // right-hand sides written as named constants of the `where` section, defined by constant expressions
+    let consts: [(f64, &str); 10] = [(3.5, "7 / 2"), (0.5, "1 / 2"), (1.5, "3 / 2"), (2.0, "4 / 2"), (-1.5, "(0 - 3) / 2"), (2.5, "5 / 2"), (1.0, "3 - 2"), (6.0, "2 * 3"), (0.75, "3 / 4"), (2.0, "5 - 6 / 2")];
+    let mut named: Vec<(usize, String, String)> = Vec::new();
     for j in 0..nc {
         let name = if r.chance(1, 4) { format!("c{j}") } else { String::new() };
         if !bools.is_empty() && r.chance(1, 3) { cs.push(Constraint::new_logic_assertion(G::logic(r, &bools, 2), name)); continue; }
@@ -120,7 +144,8 @@ fn gen_text(r: &mut Rng, i: usize) -> Value {
             let dv = *r.pick(&[2.0, 3.0, -2.0, 4.0]); let lhs = if r.chance(1, 2) { bin(BinOp::Div, blk, num(dv)) } else { Exp::Max(vec![bin(BinOp::Div, blk, num(dv)), G::affine(r, &ints)]) };
             cs.push(Constraint::new(lhs, if r.chance(1, 2) { Comparison::LessOrEqual } else { Comparison::GreaterOrEqual }, num(*r.pick(&[1.0, 2.0, 0.0, -1.0])), name)); continue; }
         let cmp = match r.below(5) { 0 | 1 => Comparison::LessOrEqual, 2 | 3 => Comparison::GreaterOrEqual, _ => Comparison::Equal };
-        let rhs = if r.chance(2, 3) { num(*r.pick(&[0.0, 1.0, 2.0, 3.0, -1.0, 4.0])) } else { G::affine(r, &ints) };
+        let rhs = if r.chance(1, 6) { let (v, def) = *r.pick(&consts); named.push((cs.len(), format!("k{}", j), def.to_string())); num(v) }
+                  else if r.chance(2, 3) { num(*r.pick(&[0.0, 1.0, 2.0, 3.0, -1.0, 4.0])) } else { G::affine(r, &ints) };
         cs.push(Constraint::new(G::arith(r, &ints, &bools, 2), cmp, rhs, name));
     }
     let ot = match r.below(5) { 0 | 1 => OptimizationType::Min, 2 | 3 => OptimizationType::Max, _ => OptimizationType::Satisfy };
@@ -136,12 +161,14 @@ fn gen_text(r: &mut Rng, i: usize) -> Value {
     let minimal = r.chance(1, 2);
     let text = |e: &Exp| if minimal { text_min(e, None) } else { text(e) };
     let head = match ot { OptimizationType::Min => format!("min {}", text(&obj)), OptimizationType::Max => format!("max {}", text(&obj)), OptimizationType::Satisfy => "solve".to_string() };
-    let body: Vec<String> = cs.iter().map(|c| {
+    let body: Vec<String> = cs.iter().enumerate().map(|(ci, c)| {
         let n = if c.name().is_empty() { String::new() } else { format!("{}: ", c.name()) };
-        if c.is_logic_assertion() { format!("    {}{}", n, text(c.lhs())) } else { format!("    {}{} {} {}", n, text(c.lhs()), match c.constraint_type() { Comparison::LessOrEqual => "<=", Comparison::GreaterOrEqual => ">=", _ => "=" }, text(c.rhs())) }
+        let rhs_text = match named.iter().find(|(k, _, _)| *k == ci) { Some((_, nm, _)) => nm.clone(), None => text(c.rhs()) };
+        if c.is_logic_assertion() { format!("    {}{}", n, text(c.lhs())) } else { format!("    {}{} {} {}", n, text(c.lhs()), match c.constraint_type() { Comparison::LessOrEqual => "<=", Comparison::GreaterOrEqual => ">=", _ => "=" }, rhs_text) }
     }).collect();
+    let wh = if named.is_empty() { String::new() } else { format!("\nwhere\n{}", named.iter().map(|(_, nm, def)| format!("    let {} = {}", nm, def)).collect::<Vec<_>>().join("\n")) };
     let defs: Vec<String> = decls.iter().filter(|d| used.contains(&d.name)).map(|d| match d.ty { VariableType::Boolean => format!("    {} as Boolean", d.name), VariableType::IntegerRange(a, c) => format!("    {} as IntegerRange({}, {})", d.name, a, c), _ => unreachable!() }).collect();
-    let src = format!("{}\ns.t.\n{}\ndefine\n{}", head, body.join("\n"), defs.join("\n"));
+    let src = format!("{}\ns.t.\n{}{}\ndefine\n{}", head, body.join("\n"), wh, defs.join("\n"));
     json!({"id": i, "text": src, "coq": model(&m2), "vars": decls.iter().filter(|d| used.contains(&d.name)).map(|d| d.name.clone()).collect::<Vec<_>>(), "dir": match ot { OptimizationType::Min => "min", OptimizationType::Max => "max", _ => "sat" }})
 }
 
